@@ -185,6 +185,7 @@ pub fn convert_events(evs: &[Event], st: &DefaultSettings<f64>, icones: &[ConeSp
             "PrintStatus" => json!({"ev": "PrintStatus", "iter": e.i[0]}),
             "Check" => json!({"ev": "Check", "iter": e.i[0], "status": e.i[1], "iterations": e.i[2]}),
             "Rollback" => json!({"ev": "Rollback", "tau": fj(e.f[0]), "kappa": fj(e.f[1]),
+                "cost_p": fj(e.f[2]), "cost_d": fj(e.f[3]), "res_p": fj(e.f[4]), "res_d": fj(e.f[5]), "gap_abs": fj(e.f[6]), "gap_rel": fj(e.f[7]),
                 "digest": if e.v.len() == 3 { digest(&[&e.v[0], &e.v[1], &e.v[2], &[e.f[0], e.f[1]]]) } else { String::new() }}),
             "SetStatus" => json!({"ev": "SetStatus", "status": e.i[0]}),
             "Ckpt" => json!({"ev": "Ckpt", "kind": e.i[0], "out": e.i[1]}),
